@@ -33,6 +33,8 @@ def seeded_table():
                 outs.append("%s: %s" % (p, r.get("exit")))
         summ = re.sub(r"\s+", " ", m.get("summary", ""))[:230]
         needs = re.sub(r"\s+", " ", m.get("needs_to_manifest", ""))[:200]
+        if m.get("retired"):
+            outs = ["**retired**: " + re.sub(r"\s+", " ", str(m["retired"]))[:260].replace("|", "/")]
         rows.append("| %s%s | %s | %s | %s |" % (sid, " (rebased)" if m.get("rebased") else "", summ.replace("|", "/"), needs.replace("|", "/"), "; ".join(outs) or "not run"))
     return "\n".join(rows)
 
